@@ -101,9 +101,11 @@ def d1_ordered(ctx, idx):
                                    'graders': 'a grader object as data'}.get(got, got)), where,
                     expected=want[what], found=got)
         # siblings
-        sib = lib.get_kw(call, 'siblings')
+        sib, certain = cm.kwarg(fi, call, 'siblings')
         construct = 'get_ordered_input_list: siblings'
-        if sib is None:
+        if sib is None and not certain:
+            r.undecided(construct, 'keyword arguments of `%s` are forwarded through a mapping that could not be resolved' % short(call), where)
+        elif sib is None:
             r.violation(construct, 'check(...) no longer receives siblings=: dependent subgraders cannot see the other inputs', where)
         else:
             sv = cm.deref(fi, sib)
@@ -1401,6 +1403,8 @@ BENIGN = [
     Benign('cost-as-float', LG, "        return 1 - result['grade_decimal']", "        return float(1.0 - result['grade_decimal'])"),
     Benign('ok-from-bool-of-comparison', BASE, "        return {0: False, 1: True}.get(grade, 'partial')", "        if grade in (0, 1):\n            return bool(grade == 1)\n        return 'partial'"),
     Benign('perfect-by-equality-with-comparison-ok', LG, "perfect = all(entry['ok'] is True for entry", "perfect = all(entry['ok'] == True for entry"),
+    Benign('siblings-through-shared-kwargs', LG, "        input_list = [\n            grader.check(answer, theinput, siblings=siblings)\n",
+           "        shared = {'siblings': siblings}\n        input_list = [\n            grader.check(answer, theinput, **shared)\n"),
     Benign('max-as-method', LG, "        max_score = np.max(scores)", "        max_score = scores.max()"),
     Benign('log-before-validation', LG, "        self.validate_submission(answers, student_list)\n\n        # Group the inputs",
            "        self.log('checking a list')\n        self.validate_submission(answers, student_list)\n\n        # Group the inputs"),
